@@ -650,9 +650,9 @@ static void render_lp (SBuf * b, const RefLP * M, const LpOpt * o)
 	mpq_clear (t);
 }
 
-#define NMPSOPT 12
-static const int mpsopt_dom[NMPSOPT] = { 3, 6, 2, 3, 2, 2, 2, 2, 5, 2, 2, 2 };
-static const char *mpsopt_name[NMPSOPT] = { "field-spacing", "range-representation", "bound-representation", "objsense-section", "objname-section", "set-names", "entries-per-line", "comments", "number-spelling", "rhs-on-objective", "explicit-zero-rhs", "column-order" };
+#define NMPSOPT 13
+static const int mpsopt_dom[NMPSOPT] = { 3, 6, 2, 3, 2, 2, 2, 2, 5, 2, 2, 2, 3 };
+static const char *mpsopt_name[NMPSOPT] = { "field-spacing", "range-representation", "bound-representation", "objsense-section", "objname-section", "set-names", "entries-per-line", "comments", "number-spelling", "rhs-on-objective", "explicit-zero-rhs", "column-order", "extra-free-row" };
 typedef struct { int v[NMPSOPT]; } MpsOpt;
 static void render_mps (SBuf * b, const RefLP * M, const MpsOpt * o)
 {
@@ -664,11 +664,14 @@ static void render_mps (SBuf * b, const RefLP * M, const MpsOpt * o)
 	else if (o->v[3]) sb_printf (b, "OBJSENSE\n%s%s\n", S, o->v[3] == 1 ? "MIN" : "minimize");
 	if (o->v[4]) sb_printf (b, "OBJNAME\n%sobj\n", S);
 	sb_printf (b, "ROWS\n N%sobj\n", S);
+	/* a further free row (with entries in COLUMNS): the first N row is the objective, later ones denote nothing */
+	if (o->v[12] == 1) sb_printf (b, " N%sauxfree\n", S);
 	for (int r = 0; r < M->m; r++) {
 		char s = M->sense[r];
 		if (s == 'R') s = (o->v[1] == 0 || o->v[1] == 4) ? 'G' : (o->v[1] == 1 || o->v[1] == 5) ? 'L' : 'E';
 		sb_printf (b, " %c%s%s\n", s, S, M->rname[r]);
 	}
+	if (o->v[12] == 2) sb_printf (b, " N%sauxfree\n", S);
 	CMT ();
 	sb_printf (b, "COLUMNS\n");
 	int inint = 0;
@@ -677,6 +680,7 @@ static void render_mps (SBuf * b, const RefLP * M, const MpsOpt * o)
 		if (M->isint[c] && !inint) { sb_printf (b, "%sMARKER%s'MARKER'%s'INTORG'\n", S, S, S); inint = 1; }
 		if (!M->isint[c] && inint) { sb_printf (b, "%sMARKER%s'MARKER'%s'INTEND'\n", S, S, S); inint = 0; }
 		int k = 0;
+		if (o->v[12]) sb_printf (b, "%s%s%sauxfree%s%d\n", S, M->cname[c], S, S, c % 2 ? -3 : 7);
 		if (mpq_sgn (M->obj[c])) { sb_printf (b, "%s%s%sobj%s", S, M->cname[c], S, S); render_signed (b, M->obj[c], o->v[8]); k++; if (!o->v[6]) { sb_printf (b, "\n"); k = 0; } }
 		for (int r = 0; r < M->m; r++) {
 			if (!mpq_sgn (REF_A (M, r, c))) continue;
